@@ -62,6 +62,12 @@ def install(reg):
         bm.str_strip(e, st, s.v, "strip", None)
         return SV(INT, LN(s.v))
 
+    @reg.spec("alive")
+    def _alive(e, st, o):
+        """the object is allocated in the current state (distinct from anything allocated later)"""
+        import z3 as _z3
+        return SV(BOOL, And(Not(o.none), _z3.Select(st.alive, o.v)))
+
     @reg.spec("truthy")
     def _truthy(e, st, v):
         return SV(BOOL, e.truthy(st, v))
